@@ -36,11 +36,12 @@ import (
 func init() { logger.InitNop() }
 
 type c11Path struct {
-	Path    string `json:"path"`
-	Prefix  string `json:"prefix"`
-	Rewrite string `json:"rewrite"`
-	Backend string `json:"backend"`
-	Limit   int64  `json:"limit"`
+	Path    string   `json:"path"`
+	Prefix  string   `json:"prefix"`
+	Rewrite string   `json:"rewrite"`
+	Backend string   `json:"backend"`
+	Limit   int64    `json:"limit"`
+	Block   []string `json:"block"` // path-level ipFilter.blockIPs
 }
 
 type c11MuxSpec struct {
@@ -48,6 +49,7 @@ type c11MuxSpec struct {
 	Limit  int64     `json:"limit"`
 	Cache  int       `json:"cache"`
 	Mapper string    `json:"mapper"`
+	Block  []string  `json:"block"` // server-level ipFilter.blockIPs (the client is always 10.1.2.3)
 	Paths  []c11Path `json:"paths"`
 }
 
@@ -129,7 +131,11 @@ func (b *c11Body) Close() error { return nil }
 
 func c11SpecYAML(s c11MuxSpec) string {
 	var sb strings.Builder
-	fmt.Fprintf(&sb, "kind: HTTPServer\nname: srv\nport: 18080\nkeepAlive: true\nhttps: false\nxForwardedFor: %v\nclientMaxBodySize: %d\ncacheSize: %d\nrules:\n- paths:\n", s.XFF, s.Limit, s.Cache)
+	fmt.Fprintf(&sb, "kind: HTTPServer\nname: srv\nport: 18080\nkeepAlive: true\nhttps: false\nxForwardedFor: %v\nclientMaxBodySize: %d\ncacheSize: %d\n", s.XFF, s.Limit, s.Cache)
+	if len(s.Block) > 0 {
+		fmt.Fprintf(&sb, "ipFilter:\n  blockByDefault: false\n  blockIPs: [%s]\n", strings.Join(s.Block, ", "))
+	}
+	sb.WriteString("rules:\n- paths:\n")
 	for _, p := range s.Paths {
 		sb.WriteString("  - backend: " + p.Backend + "\n")
 		if p.Path != "" {
@@ -143,6 +149,9 @@ func c11SpecYAML(s c11MuxSpec) string {
 		}
 		if p.Limit != 0 {
 			fmt.Fprintf(&sb, "    clientMaxBodySize: %d\n", p.Limit)
+		}
+		if len(p.Block) > 0 {
+			fmt.Fprintf(&sb, "    ipFilter:\n      blockByDefault: false\n      blockIPs: [%s]\n", strings.Join(p.Block, ", "))
 		}
 	}
 	return sb.String()
@@ -290,6 +299,7 @@ func c11RunSched(in c11SchedIn) (obs c11SchedObs) {
 	// warm the route cache of generation 0 with the same request shape
 	if in.Specs[0].Cache > 0 {
 		c11Serve(m, in.Req)
+		c11Serve(m, in.Follow)
 	}
 	obs.Fired = make([]int, len(in.Reloads))
 	done := make([]bool, len(in.Reloads))
@@ -466,6 +476,36 @@ func c11GenSpecs(r *vfRand, n int) []c11MuxSpec {
 	return out
 }
 
+// a generation that differs from base ONLY in options / filters: same rules (paths, backends,
+// rewrite targets), same cacheSize > 0; server-level ipFilter, path-level ipFilter, XFF and body
+// limit change
+func c11OptionsOnly(r *vfRand, base c11MuxSpec, tag string) c11MuxSpec {
+	s := base
+	s.Mapper = "m" + tag
+	s.Paths = append([]c11Path{}, base.Paths...)
+	toggle := func(b []string) []string {
+		if len(b) > 0 && b[0] == "10.1.2.3" {
+			return nil
+		}
+		return []string{"10.1.2.3"}
+	}
+	switch r.Intn(6) {
+	case 0, 1, 2:
+		s.Block = toggle(base.Block) // the client becomes blocked / un-blocked at server level
+	case 3:
+		s.XFF = !s.XFF
+	case 4:
+		s.Limit = []int64{20, 200, 7}[r.Intn(3)]
+	default:
+		// path-level filter: the rules differ, but nothing else does
+		i := r.Intn(len(s.Paths))
+		p := s.Paths[i]
+		p.Block = toggle(p.Block)
+		s.Paths[i] = p
+	}
+	return s
+}
+
 func c11GenReq(r *vfRand) c11MuxReq {
 	q := c11MuxReq{Method: r.PickStr("GET", "POST"), Path: r.PickStr("/a", "/a", "/a", "/pre/x", "/pre/x", "/pre/x", "/onlyA", "/onlyB", "/g", "/none")}
 	if r.Chance(2, 3) {
@@ -512,11 +552,22 @@ func TestVerifC11Mux(t *testing.T) {
 		r := root.Fork(i)
 		if i%10 == 9 {
 			in := c11ConcIn{Specs: c11GenSpecs(r, r.Range(2, 3)), Clients: r.Range(2, 6), PerCli: 40}
+			optsOnly := r.Chance(1, 3)
+			if optsOnly {
+				in.Specs[0].Cache = 16
+				for k := 1; k < len(in.Specs); k++ {
+					in.Specs[k] = c11OptionsOnly(r, in.Specs[k-1], string(rune('A'+k)))
+				}
+			}
 			if thorough {
 				in.PerCli = 400
 			}
 			for k := r.Range(2, 4); k > 0; k-- {
-				in.Reqs = append(in.Reqs, c11GenReq(r))
+				q := c11GenReq(r)
+				if optsOnly {
+					q.XFF = "" // one client identity per case (cross-client cache defects are C12's business)
+				}
+				in.Reqs = append(in.Reqs, q)
 			}
 			for k := r.Range(1, 12); k > 0; k-- {
 				in.Flips = append(in.Flips, r.Intn(len(in.Specs)))
@@ -545,6 +596,22 @@ func TestVerifC11Mux(t *testing.T) {
 			in.Req.Method = "POST"
 			in.Req.Path = r.PickStr("/a", "/pre/x")
 			in.Req.BodyLen = r.PickInt(1, 5, 10)
+		}
+		if adv || r.Chance(1, 3) {
+			// generations that differ only in options/filters, with a warm route cache, and the
+			// follow-up request hitting the key that was cached under the first generation
+			in.Specs[0].Cache = r.PickInt(4, 16)
+			if r.Chance(1, 4) {
+				in.Specs[0].Block = []string{"10.1.2.3"}
+			}
+			for k := 1; k < len(in.Specs); k++ {
+				in.Specs[k] = c11OptionsOnly(r, in.Specs[k-1], string(rune('A'+k)))
+			}
+			// one client identity per case: the route cache's cross-client defects are C12's business
+			in.Req.XFF, in.Follow.XFF = "", ""
+			if r.Chance(3, 4) {
+				in.Follow = in.Req
+			}
 		}
 		out.Emit(vfCase{ID: fmt.Sprintf("%s-sched-%d", src, i), Src: src, Grp: "sched", In: in, Obs: c11RunSched(in)})
 	}
